@@ -158,6 +158,8 @@ class Kernel:
     def _runnable(self, th: SimThread) -> bool:
         if th.state == "done":
             return False
+        if self.dead_all or th.proc in self.dead_procs:
+            return True  # a blocked thread of a dead process is woken so that it dies
         if th.pred is None:
             return True
         return bool(th.pred())
